@@ -189,4 +189,18 @@ def run(repo, tier):
     res.floor('loops-examined', 10)
     res.floor('LP2', 2)
     res.exhaustive_rules = ['LP1/LP1b/LP2 over every loop of the rendering modules']
+    from .common import guard_only
+    mm = cls.lookup('make_model_image') if False else repo.get_class('photutils.psf.photometry.ModelImageMixin').lookup('make_model_image')
+    st_ = [a_ for a_ in ast.walk(mm.node) if isinstance(a_, ast.Assign) and unparse(a_.targets[0], 0) == "model_params['local_bkg']"]
+    if len(st_) != 1:
+        raise AnalysisError('vanished anchor: local_bkg column store in ModelImageMixin.make_model_image')
+    guard_only(res, 'GUARD', mm, st_[0], {'include_localbkg'}, 'adding the local backgrounds to the rendered table',
+               'local backgrounds supplied by the user (no estimator configured) are dropped from the model/residual image')
+    mk = repo.get_function('photutils.datasets.images.make_model_image')
+    st_ = [a_ for a_ in ast.walk(mk.node) if isinstance(a_, ast.Assign) and unparse(a_.targets[0], 0) == 'model_shape'
+           and "params_table['model_shape']" in unparse(a_.value, 0)]
+    if len(st_) != 1:
+        raise AnalysisError('vanished anchor: model_shape column read in make_model_image')
+    guard_only(res, 'GUARD', mk, st_[0], {"'model_shape' in params_table.colnames"}, 'taking the per-row model_shape column',
+               'the documented precedence (column overrides keyword) is lost when the keyword is also given')
     return res
